@@ -47,26 +47,38 @@ impl Compression {
 
                 let mut i = File::open(src)?;
 
+                #[cfg(feature = "verif_hooks")]
+                crate::verif::fs_step("compress.create", src, Some(Path::new(dst)))?;
                 let o = File::create(dst)?;
                 let mut o = GzEncoder::new(o, flate2::Compression::default());
 
+                #[cfg(feature = "verif_hooks")]
+                crate::verif::fs_step("compress.copy", src, Some(Path::new(dst)))?;
                 io::copy(&mut i, &mut o)?;
                 drop(o.finish()?);
                 drop(i); // needs to happen before remove_file call on Windows
 
+                #[cfg(feature = "verif_hooks")]
+                crate::verif::fs_step("compress.remove", src, Some(Path::new(dst)))?;
                 fs::remove_file(src)
             }
             #[cfg(feature = "zstd")]
             Compression::Zstd => {
                 use std::fs::File;
                 let mut i = File::open(src)?;
+                #[cfg(feature = "verif_hooks")]
+                crate::verif::fs_step("compress.create", src, Some(Path::new(dst)))?;
                 let mut o = {
                     let target = File::create(dst)?;
                     zstd::Encoder::new(target, zstd::DEFAULT_COMPRESSION_LEVEL)?
                 };
+                #[cfg(feature = "verif_hooks")]
+                crate::verif::fs_step("compress.copy", src, Some(Path::new(dst)))?;
                 io::copy(&mut i, &mut o)?;
                 drop(o.finish()?);
                 drop(i);
+                #[cfg(feature = "verif_hooks")]
+                crate::verif::fs_step("compress.remove", src, Some(Path::new(dst)))?;
                 fs::remove_file(src)
             }
         }
@@ -117,6 +129,8 @@ impl Roll for FixedWindowRoller {
     #[cfg(not(feature = "background_rotation"))]
     fn roll(&self, file: &Path) -> anyhow::Result<()> {
         if self.count == 0 {
+            #[cfg(feature = "verif_hooks")]
+            crate::verif::fs_step("delete.remove", file, None)?;
             return fs::remove_file(file).map_err(Into::into);
         }
 
@@ -134,15 +148,23 @@ impl Roll for FixedWindowRoller {
     #[cfg(feature = "background_rotation")]
     fn roll(&self, file: &Path) -> anyhow::Result<()> {
         if self.count == 0 {
+            #[cfg(feature = "verif_hooks")]
+            crate::verif::fs_step("delete.remove", file, None)?;
             return fs::remove_file(file).map_err(Into::into);
         }
 
         // rename the file
         let temp = make_temp_file_name(file);
+        #[cfg(feature = "verif_hooks")]
+        crate::verif::fs_step("bg.rename", file, Some(&temp))?;
         move_file(file, &temp)?;
 
         // Wait for the state to be ready to roll
         let (lock, cvar) = &*self.cond_pair.clone();
+        #[cfg(feature = "verif_hooks")]
+        crate::verif::block_until("bg.wait", &|| {
+            lock.try_lock().map(|g| *g).unwrap_or(false)
+        });
         let mut ready = lock.lock();
         if !*ready {
             cvar.wait(&mut ready);
@@ -156,7 +178,11 @@ impl Roll for FixedWindowRoller {
         let count = self.count;
         let cond_pair = self.cond_pair.clone();
         // rotate in the separate thread
+        #[cfg(feature = "verif_hooks")]
+        crate::verif::will_spawn("bg.rotate");
         std::thread::spawn(move || {
+            #[cfg(feature = "verif_hooks")]
+            let _verif_guard = crate::verif::thread_enter("bg.rotate");
             let (lock, cvar) = &*cond_pair;
             let mut ready = lock.lock();
 
@@ -240,9 +266,17 @@ fn rotate(
             }
         }
 
+        #[cfg(feature = "verif_hooks")]
+        crate::verif::fs_step(
+            "rotate.shift",
+            Path::new(src.as_ref()),
+            Some(Path::new(dst.as_ref())),
+        )?;
         move_file(src.as_ref(), dst.as_ref())?;
     }
 
+    #[cfg(feature = "verif_hooks")]
+    crate::verif::fs_step("rotate.final", &file, Some(Path::new(dst_0.as_ref())))?;
     compression.compress(&file, &dst_0).map_err(|e| {
         println!("err compressing: {:?}, dst: {:?}", file, dst_0);
         e
